@@ -8,18 +8,23 @@ additionally satisfies `utf8Valid`).  The functions follow the code:
                   `utf8_percent_encode(s, NON_ALPHANUMERIC)`.
 * `pctDecode`   — `percent_encoding::percent_decode` (the iterator: `%` followed
                   by two hex digits becomes one byte, anything else is copied).
-* `unescape`    — `Url::unescape`: `percent_decode_str(s).decode_utf8().unwrap()`;
-                  `none` models the panic of `unwrap()` on invalid UTF-8.
+* `unescape`    — `Url::unescape`: `percent_decode_str(s).decode_utf8_lossy()`
+                  (since the repair `fix: Url::unescape must not panic…`; before it the
+                  code was `.decode_utf8().unwrap()`, kept here as `unescapeOld` with
+                  `none` for the panic, for the regression witnesses).
 * `utf8Next`/`utf8Valid`/`utf8Lossy` — `core::str::Utf8Chunks` /
                   `String::from_utf8_lossy` (maximal invalid prefix ↦ one U+FFFD).
 * `formParse`   — `form_urlencoded::parse` = `url::Url::query_pairs`
                   (split on `&`, skip empty pieces, split at the first `=`,
                   `+` ↦ space, percent-decode, lossy UTF-8).
-* `PMap.insert` — `ParamsMap::insert` (router/src/params.rs): **unescapes the
-                  value again**, appends to the key's vector or pushes a new key.
+* `PMap.insert` — `ParamsMap::insert` (router/src/params.rs): unescapes the value
+                  (raw path segments come in here), appends to the key's vector or
+                  pushes a new key.  `PMap.push` = `ParamsMap::insert_decoded`.
 * `toQueryString` — `ParamsMap::to_query_string`.
-* `searchParams`  — `RequestUrl::parse_with_base` restricted to the query
-                  component: `query_pairs().collect::<ParamsMap>()`.
+* `searchParams`  — `RequestUrl::parse_with_base` restricted to the query component:
+                  `for (k, v) in query_pairs() { insert_decoded(k, v) }` (since the repair
+                  `fix: do not percent-decode server query parameters twice`; the old
+                  `query_pairs().collect::<ParamsMap>()` is kept as `searchParamsOld`).
 * `pathParam`     — what both routers do with a matched raw path segment:
                   `ParamsMap::insert(name, segment)`.
 -/
@@ -140,8 +145,11 @@ def lossyGo : Nat → Nat → List Nat → List Nat
 /-- `String::from_utf8_lossy` -/
 def utf8Lossy (s : List Nat) : List Nat := lossyGo 0 0 s
 
-/-- `Url::unescape`; `none` = the `unwrap()` panics. -/
-def unescape (s : List Nat) : Option (List Nat) :=
+/-- `Url::unescape` (repaired): lossy, total -/
+def unescape (s : List Nat) : List Nat := utf8Lossy (pctDecode s)
+
+/-- `Url::unescape` before the repair; `none` = the `unwrap()` panics. -/
+def unescapeOld (s : List Nat) : Option (List Nat) :=
   let d := pctDecode s
   if utf8Valid d then some d else none
 
@@ -182,20 +190,23 @@ def PMap.push : PMap → List Nat → List Nat → PMap
   | (k', vs) :: rest, k, v =>
     if k' = k then (k', vs ++ [v]) :: rest else (k', vs) :: PMap.push rest k v
 
-/-- `ParamsMap::insert`; `none` = panic in `unescape` -/
-def PMap.insert (m : PMap) (k v : List Nat) : Option PMap :=
-  match unescape v with
+/-- `ParamsMap::insert` -/
+def PMap.insert (m : PMap) (k v : List Nat) : PMap := m.push k (unescape v)
+
+/-- `ParamsMap::insert` before the repairs; `none` = panic in `unescape` -/
+def PMap.insertOld (m : PMap) (k v : List Nat) : Option PMap :=
+  match unescapeOld v with
   | some v' => some (m.push k v')
   | none => none
 
-def PMap.insertAll : PMap → List (List Nat × List Nat) → Option PMap
+def PMap.insertAllOld : PMap → List (List Nat × List Nat) → Option PMap
   | m, [] => some m
   | m, (k, v) :: rest =>
-    match m.insert k v with
-    | some m' => PMap.insertAll m' rest
+    match m.insertOld k v with
+    | some m' => PMap.insertAllOld m' rest
     | none => none
 
-/-- the same collection with values taken as they are: "decoded exactly once" -/
+/-- a loop of `insert_decoded` -/
 def PMap.pushAll : PMap → List (List Nat × List Nat) → PMap
   | m, [] => m
   | m, (k, v) :: rest => PMap.pushAll (m.push k v) rest
@@ -216,16 +227,23 @@ def rawQuery (target : List Nat) : List Nat :=
   let noFrag := (splitFirst 35 target).1
   (splitFirst 63 noFrag).2
 
-/-- `RequestUrl::parse(..).search_params` as the code computes it -/
-def searchParams (q : List Nat) : Option PMap := PMap.insertAll [] (formParse q)
+/-- `RequestUrl::parse(..).search_params` as the (repaired) code computes it -/
+def searchParams (q : List Nat) : PMap := PMap.pushAll [] (formParse q)
 
-/-- what the property asks for: every pair decoded exactly once -/
-def searchParamsSpec (q : List Nat) : PMap := PMap.pushAll [] (formParse q)
+/-- the same before the repairs: every value decoded a second time, `none` = panic -/
+def searchParamsOld (q : List Nat) : Option PMap := PMap.insertAllOld [] (formParse q)
+
+/-- all values stored under key `k` by a list of decoded pairs, in order of appearance -/
+def valuesOf (l : List (List Nat × List Nat)) (k : List Nat) : List (List Nat) :=
+  l.filterMap fun kv => if kv.1 = k then some kv.2 else none
 
 /-- a matched raw path segment stored by the routers -/
-def pathParam (seg : List Nat) : Option (List Nat) := unescape seg
+def pathParam (seg : List Nat) : List Nat := unescape seg
 
-/-- a `%` followed by two hex digits occurs somewhere -/
+/-- the pairs of a map in the order `to_query_string` emits them -/
+def mapPairs (m : PMap) : List (List Nat × List Nat) :=
+  m.flatMap fun kvs => kvs.2.map fun v => (kvs.1, v)
+
 def hasPctTriple : List Nat → Bool
   | [] => false
   | b :: rest => (b = 37 && (tripleVal rest).isSome) || hasPctTriple rest
